@@ -453,6 +453,12 @@ V("c01-silent-merged-dict", "C01", "silent", LG, NOISE_BLOCK + "\n        # Perf
   "        new_noise = dict(noise_interventions or {})\n        new_noise.update(do_interventions or {})\n        if new_noise:\n            new_noise = _parse_interventions(new_noise)\n            targets = new_noise[:, 0].astype(int)\n            means[targets] = new_noise[:, 1]\n            variances[targets] = new_noise[:, 2]\n        if do_interventions:\n            targets = np.array(list(do_interventions.keys())).astype(int)\n            W[:, targets] = 0\n",
   what="merged dict with do overriding noise: same outcome table")
 V("c01-unique-targets", "C01", "fire", LG, "            targets = do_interventions[:, 0].astype(int)\n", "            targets = np.unique(do_interventions[:, 0].astype(int))\n", rule="CASES", what="targets sorted, parameters not")
+V("c01-mask-targets", "C01", "fire", LG, "            targets = do_interventions[:, 0].astype(int)\n",
+  "            targets = np.zeros(self.p, dtype=bool)\n            targets[do_interventions[:, 0].astype(int)] = True\n", rule="CASES",
+  what="do-targets as a boolean membership mask: the mask fills in ascending index order, the parameter columns stay in dict order (seed C01-r13-2)")
+V("c01-silent-mask-cut-only", "C01", "silent", LG, "            W[:, targets] = 0\n",
+  "            cut = np.zeros(self.p, dtype=bool)\n            cut[targets] = True\n            W[:, cut] = 0\n",
+  what="only the edge removal goes through a membership mask: which columns are cut does not depend on their order")
 V("c01-result-type-dtype", "C01", "fire", LG, "        variances = self.variances.astype(float)\n        means = self.means.astype(float)\n", "        dtype = np.result_type(self.W, self.means, self.variances)\n        variances = self.variances.astype(dtype)\n        means = self.means.astype(dtype)\n", rule="DTYPE", what="common dtype of the model arrays: all-integer models truncate")
 V("c02-cancelling-source-shortcut", "C02", "fire", AN, "                assignment = np.transpose(self.assignments[i](X[:, self.A[:, i] != 0]))\n", "                if self.A[:, i].sum() == 0:\n                    assignment = 0\n                else:\n                    assignment = np.transpose(self.assignments[i](X[:, self.A[:, i] != 0]))\n", rule="PAT", what="parentless shortcut decided by the signed column sum")
 V("c02-set-order-parents", "C02", "fire", AN, "                assignment = np.transpose(self.assignments[i](X[:, self.A[:, i] != 0]))\n", "                parents = list(utils.pa(i, self.A))\n                assignment = np.transpose(self.assignments[i](X[:, parents]))\n", rule="CASES", what="parent columns in set-iteration order")
